@@ -61,7 +61,7 @@ def expand_doc(doc):
 
 
 def gen_c05(rng):
-    idents = ["dm", "x1", "beta", "Vub", "fD", "dGamma", "q2", "inf", "nan", "Infinity", "e1", "a/b"]
+    idents = ["dm", "x1", "beta", "Vub", "fD", "dGamma", "q2", "inf", "nan", "Infinity", "e1", "a/b", "+eps"]
     defined = rng.sample(idents, rng.randint(0, 5))
     malias = rng.sample(["MyModel", "SLBKPOLE_DtoKlnu", "BMIX", "M2", "AliasX"], rng.randint(0, 4))
     defs = []
